@@ -408,8 +408,17 @@ def rule_r14_body(body, counts):
     return new
 
 
+def rule_r15_body(body, counts):
+    """R15: `E.chars().collect()` -> `verif_chars(E)` (definition of str::chars + collect into Vec<char>)."""
+    new, n = re.subn(r'\b([A-Za-z_]\w*)\.chars\(\)\.collect\(\)', r'verif_chars(\1)', body)
+    if n:
+        counts['R15'] = counts.get('R15', 0) + n
+    return new
+
+
 RULES_BODY = {
     'R14': rule_r14_body,
+    'R15': rule_r15_body,
     'R4': rule_r4_body,
     'R5': rule_r5_body,
     'R5b': rule_r5b_body,
